@@ -205,7 +205,8 @@ func execPipe(line string) h.Result {
 		}
 	}
 	if o.Trace != "" {
-		res.Derived = []string{"pipetrace " + o.Trace}
+		// the parser inside the pipeline model follows the tree under test at the known-defect sites (same probe as parse.go)
+		res.Derived = []string{"pipetrace " + strings.Replace(o.Trace, " ", variantSuffix()+" ", 1)}
 	}
 	return res
 }
@@ -476,7 +477,7 @@ func genPipeOne(r *h.Rand, kind int) string {
 }
 
 func genPipe(g *h.Gen) {
-	n := g.N(40, 600)
+	n := g.N(400, 3000)
 	// directed cases first: the two shutdown situations the design names, at every fill level of the event queue
 	for i := 0; i < n; i++ {
 		kind := []int{0, 1, 2, 3, 2, 3, 0, 4}[i%8]
